@@ -36,6 +36,10 @@ class Deadlock(HarnessError):
     pass
 
 
+class Livelock(HarnessError):
+    """The threads keep each other busy at one virtual instant and never reach quiescence."""
+
+
 class SimKill(BaseException):
     """Raised inside parked threads to unwind them at world teardown."""
 
@@ -173,7 +177,7 @@ class World:
     def default_choice(self, en):
         return self.last if self.last in en else en[0]
 
-    def run(self, max_steps=200_000):
+    def run(self, max_steps=6_000):
         """Run until no thread is enabled (quiescence).  Returns steps taken."""
         n = 0
         while True:
@@ -184,7 +188,7 @@ class World:
             self._run_one(st)
             n += 1
             if n > max_steps:
-                raise HarnessError("step budget exceeded (livelock between threads?)")
+                raise Livelock(f"no quiescence after {max_steps} scheduling steps at virtual time {self.now}")
 
     def next_deadline(self):
         d = [t.wake_at for t in self.threads if not t.done and t.wake_at is not None]
